@@ -408,6 +408,41 @@ pub fn one_case(ctx: &Ctx, case: u64, l: &mut Local) {
                 p.feed(&text, fmt.other(), &mut r, None);
             }
         }
+        "part-mutated" if r.chance(25) => {
+            // the whole token (or one part) framed by white space of every Unicode kind, and inputs
+            // that mix the two serializations' outer syntax ("{~}", JSON whose disclosures member is
+            // the compact tail, compact text wrapped in braces)
+            const WS: [char; 26] = ['\u{9}', '\u{a}', '\u{b}', '\u{c}', '\u{d}', ' ', '\u{85}', '\u{a0}', '\u{1680}', '\u{2000}', '\u{2001}', '\u{2002}', '\u{2003}', '\u{2007}', '\u{2009}', '\u{200a}', '\u{2028}', '\u{2029}', '\u{202f}', '\u{205f}', '\u{3000}', '\u{feff}', '\u{200b}', '\u{180e}', '\u{1c}', '\u{1f}'];
+            let (seed, fmt, _) = r.pick(&sd.tokens).clone();
+            let text = match r.below(8) {
+                0 => format!("{}{seed}", r.pick(&WS)),
+                1 => format!("{seed}{}", r.pick(&WS)),
+                2 => format!("{}{seed}{}", r.pick(&WS), r.pick(&WS)),
+                3 => format!("{}{}{seed}{}", r.pick(&WS), r.pick(&WS), r.pick(&WS)),
+                4 => (*r.pick(&["{~}", "{}~", "{~", "~}", "{\"a\":1}~", "{~~}", "{\"disclosures\":\"a~b~\"}", "[~]", "{\n~\n}"])).to_string(),
+                5 => format!("{{{seed}}}"),
+                6 => {
+                    // JSON form whose `disclosures` is the compact "d1~d2~" string
+                    match serde_json::from_str::<Value>(&seed) {
+                        Ok(mut v) if v.is_object() => {
+                            let tail = v["disclosures"].as_array().map(|a| a.iter().filter_map(Value::as_str).map(|d| format!("{d}~")).collect::<String>()).unwrap_or_else(|| "a~b~".into());
+                            v["disclosures"] = json!(tail);
+                            v.to_string()
+                        }
+                        _ => format!("{{\"protected\":\"e30\",\"payload\":\"e30\",\"signature\":\"\",\"disclosures\":\"{seed}\"}}"),
+                    }
+                }
+                _ => {
+                    let c = *r.pick(&WS);
+                    seed.replacen('~', &format!("{c}~{c}"), 1)
+                }
+            };
+            p.l.distinct(crate::rng::mix(fp_base ^ gen::hash_str(&text)));
+            for f in FMTS {
+                p.feed(&text, f, &mut r, None);
+            }
+            let _ = fmt;
+        }
         "part-mutated" => {
             let (seed, fmt, _) = r.pick(&sd.tokens).clone();
             let sep = if r.chance(50) { '~' } else { '.' };
@@ -505,6 +540,43 @@ pub fn one_case(ctx: &Ctx, case: u64, l: &mut Local) {
                         let v = api::verify(&t, &Resolver::Fixed(Alg::ES256, 0), Some(("aud", "n")), fmt);
                         p.judge("SDJWTVerifier::new(kb)", &v.out, &|| json!({"signed_payload": flipped, "format": fmt.name()}));
                     }
+                }
+            }
+        }
+        "signed-structures" if (case / 9) % 64 == 5 => {
+            // a layered LATTICE: both disclosures of layer i list both digests of layer i+1 (every
+            // digest below the top is referenced twice). 2^layers paths, 2*layers disclosures: must
+            // be refused (or processed) at once, never walked path by path
+            let layers = *r.pick(&[8usize, 20, 30, 36, 48]);
+            let mut next: Option<(String, String)> = None;
+            let mut discs: Vec<String> = vec![];
+            for layer in (0..layers).rev() {
+                let value = |which: &str| match &next {
+                    None => json!(format!("leaf-{which}")),
+                    Some((a, b)) => json!({"_sd": [a, b]}),
+                };
+                let da = b64e(json!([format!("sa{layer}"), format!("a{layer}"), value("a")]).to_string().as_bytes());
+                let db = b64e(json!([format!("sb{layer}"), format!("b{layer}"), value("b")]).to_string().as_bytes());
+                next = Some((model::digest_of(&da), model::digest_of(&db)));
+                discs.push(da);
+                discs.push(db);
+            }
+            let (ta, tb) = next.unwrap();
+            let payload = json!({"iss": "https://issuer.example/A", "exp": api::now() + 3600, "_sd": [ta, tb], "_sd_alg": "sha-256"});
+            let alg = *r.pick(&ALL_ALGS);
+            let fmt = *r.pick(&FMTS);
+            r.shuffle(&mut discs);
+            let parts = Parts { jwt: api::sign_payload(alg, 0, &payload, None), disclosures: discs, kb: None };
+            p.l.distinct(crate::rng::mix(fp_base ^ layers as u64 ^ 0x1A77));
+            if let Some(t) = parts.encode(fmt, 0) {
+                let input = || json!({"lattice_layers": layers, "format": fmt.name()});
+                let v = api::verify(&t, &Resolver::Fixed(alg, 0), None, fmt);
+                p.judge("SDJWTVerifier::new", &v.out, &input);
+                let h = api::holder_new(&t, fmt);
+                p.judge("SDJWTHolder::new", &h, &input);
+                if let Outcome::Ok(mut h) = h {
+                    let o = api::present(&mut h, &json!({"a0": true, "b0": {"a1": true}}), None);
+                    p.judge("create_presentation", &o, &input);
                 }
             }
         }
